@@ -127,7 +127,7 @@ def worker(job):
                     return  # do not let Hypothesis shrink a harness error
                 if state["failed"]:
                     res["post_failure_calls"] += 1
-                    if res["post_failure_calls"] > int(os.environ.get("VERIF_SHRINK_CALLS", "150" if tier == "quick" else "1500")):
+                    if res["post_failure_calls"] > int(os.environ.get("VERIF_SHRINK_CALLS", str(getattr(mod, "SHRINK_CALLS", 150 if tier == "quick" else 1500)))):
                         return  # shrink budget spent: let the shrinker finish quickly
                 try:
                     out = mod.run_case(case)
